@@ -26,6 +26,8 @@ pub const SETUP: &str = "
 (define (ma n) (if (< n 1) 0 (mb (- n 1) 1)))
 (define (mb n) (ma (- n 1)))
 (define (mk-loop k) (lambda (n) (if (< n 1) k ((mk-loop (+ k 1)) (- n 1) k))))
+(define g2 (lambda (first second) (list 'g2 first second)))
+(define (mk-g) (lambda (only) (list 'g only)))
 ";
 
 /// (fault kind, expression text, is the faulting operation itself a procedure call that can sit
@@ -52,6 +54,12 @@ pub fn faults() -> Vec<(&'static str, &'static str)> {
         ("arity-many-fixed", "(f0 1)"),
         ("arity-many-fixed", "(f2 1 2 3)"),
         ("arity-few-rest", "(fr)"),
+        // the callee is a closure made by a lambda EXPRESSION of an earlier form (not define sugar)
+        ("arity-lambda-defined-earlier", "(g2 1)"),
+        ("arity-lambda-defined-earlier", "(g2 1 2 3)"),
+        ("arity-lambda-defined-earlier", "((mk-g) 1 2)"),
+        ("arity-lambda-defined-earlier", "(apply g2 (list 1 2 3))"),
+        ("arity-lambda-defined-earlier", "(map g2 (list 1 2))"),
         ("arity-lambda", "((lambda (a b) a) 1)"),
         ("arity-lambda", "((lambda (a) a) 1 2)"),
         ("arity-lambda", "((lambda () 1) 2)"),
